@@ -550,6 +550,10 @@ fn resolve(regions: &[Region], d: &Value) -> Option<u64> {
     let i = match d["which"].as_str().unwrap_or("first") { "first" => idxs[0], "last" => idxs[idxs.len() - 1], _ => idxs[idxs.len() / 2] };
     let r = &regions[i];
     let len = r.limit - r.start;
+    if let Some(k) = d["pos_index"].as_u64() {
+        // the k-th byte of the region, if it has one
+        return if k < len { Some(r.start + k) } else { None };
+    }
     Some(match d["pos"].as_str().unwrap_or("first") {
         "first" => r.start,
         "second" => r.start + 1.min(len - 1),
@@ -819,6 +823,23 @@ pub fn main(args: &[String]) -> ! {
             "log" => read_log(&b, &entries),
             _ => read_mani(&damaged_path, &b, &edits, &pristine_state, &prefix_states),
         };
+        // an append-only file that was truncated AND damaged otherwise: what the readers do with the truncation alone
+        let mut ops = ops;
+        let has_trunc = applied.iter().any(|a| a["kind"] == "trunc");
+        let has_other = applied.iter().any(|a| a["kind"] != "trunc" && a["noop"] == false && a["cut"] == false);
+        if (file == "log" || file == "mani") && has_trunc && has_other {
+            let mut tb = bytes.clone();
+            for d in case["dmgs"].as_array().unwrap() {
+                if d["kind"] == "trunc" { let _ = apply(&mut tb, &regions, d, &mut rng); }
+            }
+            let base_ops = if file == "log" { read_log(&tb, &entries) } else { read_mani(&damaged_path, &tb, &edits, &pristine_state, &prefix_states) };
+            for o in ops.iter_mut() {
+                if let Some(b) = base_ops.iter().find(|b| b["op"] == o["op"]) {
+                    let base = if b["status"] != "ok" { -1 } else if b.get("delivered").is_some() { b["delivered"].as_i64().unwrap() } else { b["prefix"].as_i64().unwrap_or(-1) };
+                    o["base"] = json!(base);
+                }
+            }
+        }
         n += 1;
         let ev = json!({"ev": "case", "file": file, "dmgs": applied, "ops": ops, "spec": case});
         if worst.len() < 3 && ops.iter().any(|o| o["status"] == "panic") { worst.push(ev.clone()); }
